@@ -52,10 +52,11 @@ FreshFrames ==
   Done => \A i, j \in 1..Len(Hist) : (i # j /\ Hist[i][1] = "call" /\ Hist[j][1] = "call") => Hist[i][3] # Hist[j][3]
 
 \* C04: a comprehension yields what its explicit loop yields
+\* (evaluated on the state whose program IS a comprehension of the cp family: its explicit loop is run beside it)
 ComprEqualsLoop ==
-  \A p \in CpParams : p[2] = 1 =>
-     LET a == Run(Build(p))  b == Run(Build(<<"cp", 2, p[3], p[4], p[5], p[6]>>))
-     IN a.st.log = b.st.log /\ a.o.t = b.o.t
+  (phase = "done" /\ prog[1] = "cp" /\ prog[2] = 1) =>
+     LET b == Run(Build(<<"cp", 2, prog[3], prog[4], prog[5], prog[6]>>))
+     IN res.st.log = b.st.log /\ res.o.t = b.o.t
 
 TypeOK == res.o.t \in {"val", "err", "fuel"}      \* signals never leave Run
 
